@@ -1,4 +1,4 @@
-//! Caller probes (`--prop C02 | C08 | C09 | C12 | C13 | C14 | C17 | C19`): small user crates, each compiled separately by rustc
+//! Caller probes (`--prop C02 | C08 | C09 | C11 | C12 | C13 | C14 | C17 | C19`): small user crates, each compiled separately by rustc
 //! against the current crate (harness::probe), that use a property's operations the way downstream code
 //! does and the harness crate itself does not:
 //!   * generic over the length / element type, stating exactly the bounds the trait impls publish
@@ -285,6 +285,19 @@ fn main() {
                 expect: "[4, 2, 1, 3]\n[1, 2, 3, 4]\n[2, 3, 1, 4]\n[7, 7, 7, 7] true Some(7) Some(7)\n[7, 7, 9, 7] Some(2) 4\n3 [3, 4]\n3\n[1, 9] 3\n[\"b\", \"a\"]\n8 8 8 8\n3 32\n",
             },
         ],
+        "C11" => vec![Caller {
+            what: "by-reference flatten of a 65536 x 65536 grid of zero-sized elements (2^32 elements, 0 bytes)",
+            externs: &[],
+            src: r#"
+fn main() {
+    let p = core::ptr::NonNull::<GenericArray<GenericArray<(), U65536>, U65536>>::dangling();
+    let rows: &GenericArray<GenericArray<(), U65536>, U65536> = unsafe { p.as_ref() };
+    let flat = rows.flatten();
+    println!("{} {}", flat.len(), core::mem::size_of_val(flat));
+}
+"#,
+            expect: "4294967296 0\n",
+        }],
         "C12" => vec![
             Caller {
                 what: "the by-value sequence operations called with method syntax on a BOXED array: auto-deref moves the array out of the box and the results are plain arrays of the lengths the impls of GenericArray state",
